@@ -15,6 +15,7 @@ import (
 	"fmt"
 	"os"
 	"path/filepath"
+	"regexp"
 	"sort"
 	"strconv"
 	"strings"
@@ -83,6 +84,8 @@ func (c *c06Case) input() string {
 			fmt.Fprintf(&sb, " P %d", op.ch)
 		case "M":
 			fmt.Fprintf(&sb, " M %d", op.n)
+		case "L":
+			fmt.Fprintf(&sb, " L %d %d", op.nsamples, op.n)
 		case "X":
 			sb.WriteString(" X")
 		case "R":
@@ -109,6 +112,10 @@ func c06CountRecords(path string, nsamp int) int {
 			return -1
 		}
 		rest := len(b) - k - len(marker)
+		// the record length of an LJH 2.2 file is the one in its own header
+		if m := c06TotalSamples.FindSubmatch(b[:k]); m != nil {
+			nsamp, _ = strconv.Atoi(string(m[1]))
+		}
 		rs := 16 + 2*nsamp
 		if rest%rs != 0 {
 			return -1
@@ -162,6 +169,9 @@ func c06CountRecords(path string, nsamp int) int {
 		if f, ok := v["NumberOfBases"].(float64); ok {
 			nb = int(f)
 		}
+		if f, ok := v["MaxSamples"].(float64); ok {
+			nsamp = int(f)
+		}
 		pos += 2 * 8 * nb * nsamp
 		if pos > len(b) {
 			return -1
@@ -174,6 +184,8 @@ func c06CountRecords(path string, nsamp int) int {
 	}
 	return -1
 }
+
+var c06TotalSamples = regexp.MustCompile(`(?m)^Total Samples: ([0-9]+)\r?$`)
 
 type c06Key struct{ pid, run, ch, ty int }
 
@@ -406,8 +418,13 @@ func (c *c06Case) run() string {
 				running = false
 			}
 			sb.WriteString(" -")
-		case "R": // the source is started (again) through the real Start
-			err := vs.VerifC06Start(queue, c.npre, c.nsamp)
+		case "L": // the RPC that changes the record lengths
+			var reply bool
+			err := sc.ConfigurePulseLengths(dastard.SizeObject{Nsamp: op.nsamples, Npre: op.n}, &reply)
+			fmt.Fprintf(&sb, " E %d", b2i(err != nil))
+		case "R": // the source is started (again) through the real Start, with the lengths the server holds
+			curNsamp, curNpre := sc.VerifC06Lengths()
+			err := vs.VerifC06Start(queue, curNpre, curNsamp)
 			if err == nil {
 				running = true
 				sc.VerifSetActive(true)
@@ -428,6 +445,8 @@ func (c *c06Case) run() string {
 			b2i(ws.WriteLJH3), c06BasePid(root, ws.BasePath), pp, pr)
 		fmt.Fprintf(&sb, " NW %s", ints(nw))
 		fmt.Fprintf(&sb, " FD %d", c06OpenFds(root))
+		lenS, lenP := sc.VerifC06Lengths()
+		fmt.Fprintf(&sb, " LEN %d %d", lenS, lenP)
 		cur := c06Scan(root, c.nsamp)
 		var changed []c06Key
 		for k, n := range cur {
@@ -524,6 +543,13 @@ func c06Scripted(idx int) *c06Case {
 		c.ops = []c06Op{q("START", 2, true, false, false), q("START", -1, true, false, false), q("START", 0, true, false, false),
 			{kind: "D", ch: 0, n: 1}, q("STOP", -1, false, false, false), q("START", 2, false, false, true), {kind: "D", ch: 0, n: 2},
 			q("START", -1, false, false, true), {kind: "D", ch: 0, n: 3}, q("START", 2, true, false, false), q("STOP", -1, false, false, false)}
+	case 6: // record lengths: changed while inactive (accepted), while active and while PAUSED (refused), then writing resumes
+		c = &c06Case{idx: idx, nch: 2, npre: 3, nsamp: 8, proj: []bool{true, false}, trig: []bool{true, true}, nums: []int{1, 2}}
+		c.ops = []c06Op{{kind: "L", nsamples: 16, n: 4}, {kind: "P", ch: 0}, q("START", 0, true, true, false), {kind: "D", ch: 0, n: 1},
+			{kind: "L", nsamples: 8, n: 3}, q("PAUSE", -1, false, false, false), {kind: "L", nsamples: 8, n: 3}, {kind: "L", nsamples: 16, n: 4},
+			q("UNPAUSE", -1, false, false, false), {kind: "D", ch: 0, n: 2}, {kind: "D", ch: 1, n: 1}, {kind: "B", nsamples: 48},
+			q("STOP", -1, false, false, false), {kind: "L", nsamples: 8, n: 3}, q("START", -1, true, false, true), {kind: "D", ch: 1, n: 2},
+			q("STOP", -1, false, false, false)}
 	case 3: // a good map: accepted
 		c = &c06Case{idx: idx, nch: 3, npre: 3, nsamp: 8, proj: []bool{false, true, false}, trig: []bool{true, true, true},
 			nums: []int{3, 1, 2}}
@@ -541,7 +567,7 @@ func c06Scripted(idx int) *c06Case {
 }
 
 func genC06(r *Rng, tier string, idx int) *c06Case {
-	if idx < 6 {
+	if idx < 7 {
 		return c06Scripted(idx)
 	}
 	c := &c06Case{idx: idx}
@@ -629,6 +655,10 @@ func genC06(r *Rng, tier string, idx int) *c06Case {
 	if r.Chance(25) {
 		lifePct = r.Pick(4, 8, 15)
 	}
+	lenPct := 0 // how often the record lengths are (tried to be) changed before a request
+	if r.Chance(30) {
+		lenPct = r.Pick(8, 15, 30)
+	}
 	publish := func() {
 		if !srcRunning { // no producer, no blocks
 			return
@@ -673,6 +703,18 @@ func genC06(r *Rng, tier string, idx int) *c06Case {
 			srcRunning = true
 		} else if lifePct > 0 && r.Chance(3) { // redundant: start a running source / end an ended one
 			c.ops = append(c.ops, c06Op{kind: []string{"R", "X"}[b2i(!srcRunning)]})
+		}
+		if srcRunning && r.Chance(lenPct) { // the RPC that changes the record lengths (must be refused while writing)
+			sz := [][2]int{{3, 8}, {4, 16}, {3, 5}, {8, 32}, {c.npre, c.nsamp}, {c.npre, c.nsamp}, {0, 8}, {4, 4}, {2, 9}, {-1, 8}, {5, 0}}[r.Intn(11)]
+			if paused && active && r.Chance(60) { // the hot spot: paused writing, other lengths, then resume
+				sz = [][2]int{{3, 8}, {4, 16}, {8, 32}}[r.Intn(3)]
+				c.ops = append(c.ops, c06Op{kind: "L", nsamples: sz[1], n: sz[0]})
+				addReq("UNPAUSE", -1, false, false, false)
+				paused = false
+				publish()
+			} else {
+				c.ops = append(c.ops, c06Op{kind: "L", nsamples: sz[1], n: sz[0]})
+			}
 		}
 		if r.Chance(mapPct) { // load a map (right length, off by one, empty) or unload it
 			c.ops = append(c.ops, c06Op{kind: "M", n: r.Pick(c.nch, c.nch, c.nch, c.nch, c.nch+1, c.nch-1, 0, -1)})
